@@ -7,7 +7,7 @@ package main
 // Generic ops (every codec of the table, D only; the Lean driver judges the flags):
 //   rt <codec> <flags> <seed>   flags = <selfdelim:0|1><canonical:0|1>; random valid value v (built from the Go types from <seed>):
 //        enc=err                                   the encoder refused the value (counted, not judged)
-//        len=<n> rt=<eq|neq|err> trunc=<n>:<accepted>:<noncanonical> flip=<n>:<accepted>:<unstable> alloc=<ok|big:<bytes>:<what>>
+//        len=<n> rt=<eq|neq|err> trunc=<n>:<accepted>:<noncanonical> ext=<n>:<accepted> flip=<n>:<accepted>:<unstable> alloc=<ok|big:<bytes>:<what>>
 //   gb <codec> <flags> <hex>    arbitrary bytes: dec=<err|ok> stable=<1|0|-> alloc=<ok|big:..>
 // Modelled ops (propose / clusternet / shared primitives) are in c27_small.go.
 
@@ -570,6 +570,20 @@ func c27RoundTrip(c *c27Codec, seed uint64) string {
 			}
 		}
 	}
+	// extensions: a self-delimiting codec must reject anything after a complete encoding
+	extAcc := 0
+	exts := [][]byte{append(append([]byte(nil), enc...), enc...), append(append([]byte(nil), enc...), '1'),
+		append(append([]byte(nil), enc...), byte(0x21+rnd.Intn(0x5e))), append(append([]byte(nil), enc...), rnd.Bytes(rnd.Range(1, 4))...)}
+	if last := exts[3][len(exts[3])-1]; last == ' ' || last == '\n' || last == '\t' || last == '\r' {
+		exts[3][len(exts[3])-1] = 'x' // trailing white space is legal for the text codec
+	}
+	for _, x := range exts {
+		var xerr error
+		al.see(c27Measure(func() { _, xerr = c.dec(x) }), len(x), "ext")
+		if xerr == nil {
+			extAcc++
+		}
+	}
 	// mutations
 	const nmut = 40
 	macc, unstable := 0, 0
@@ -589,7 +603,7 @@ func c27RoundTrip(c *c27Codec, seed uint64) string {
 			}
 		}
 	}
-	return fmt.Sprintf("len=%d rt=%s trunc=%d:%d:%d flip=%d:%d:%d %s", len(enc), rt, len(enc), accepted, noncanon, nmut, macc, unstable, al.String())
+	return fmt.Sprintf("len=%d rt=%s trunc=%d:%d:%d ext=%d:%d flip=%d:%d:%d %s", len(enc), rt, len(enc), accepted, noncanon, len(exts), extAcc, nmut, macc, unstable, al.String())
 }
 
 // --------------------------------------------------------------- generator
